@@ -26,7 +26,7 @@ BUDGET = {
 }
 REQUIRED_PROBES = ["operations_mixin", "iam_mixin", "locations_mixin", "api_not_listed", "rule_subset", "iam_yields_to_own_rpc",
                    "own_iam_rpc_unruled_keeps_mixins", "add_iam_methods", "grpc_call", "async_call", "rest_call",
-                   "rest_additional_binding", "exposure_checked", "nothing_exposed"]
+                   "rest_additional_binding", "exposure_checked", "nothing_exposed", "own_rpc_with_mixin_name"]
 
 MIXINS = {
     "google.longrunning.Operations": {
@@ -105,6 +105,11 @@ def gen_scenarios(spec, rng, n):
             if client == "rest" and rule is None:
                 continue
             ops.append(gen_op(rng, name, api, rule, f"o{j}", client, spec))
+        if client != "rest":
+            for fs, s, m in grammar.all_methods(spec):
+                if m.get("own_mixin_name") and s["name"] == _first_service(spec):
+                    ops.insert(rng.randint(1, len(ops)), {"id": "own-" + m["name"], "kind": "unary", "service": s["name"], "method": m["name"],
+                                                          "form": "dict", "request": {"name": "own/x1"}, "call": {}, "server": [{"reply": {}}]})
         out.append({"client": client, "actors": [{"start": 0.0, "ops": ops}], "jitter_default": 0.0})
     return out
 
@@ -208,8 +213,14 @@ engine.ASYNC_EXEC["introspect"] = _async_introspect
 def server_factory(run):
     codec = run.world.codec
 
+    plain = engine.scripted_server(run)
+
     def serve(call):
         op = run.ops.get(call["op"])
+        if op is not None and op["kind"] == "unary":
+            if call["path"] not in run.world.rpc:
+                return {"msg": _dyn("google.protobuf.Empty", {})}     # went somewhere else: judged below
+            return plain(call)
         if op is None or op["kind"] != "mixin":
             return {"code": "UNIMPLEMENTED"}
         return {"msg": _dyn(op["resp_full"], op["reply"])}
@@ -292,6 +303,21 @@ def judge(spec, scenario, history):
             _bump(probes, "own_iam_rpc_unruled_keeps_mixins")
     if (spec.get("options") or {}).get("add-iam-methods"):
         _bump(probes, "add_iam_methods")
+    # ---- own RPCs that merely share a short name with a mixin RPC must still reach the API's own RPC
+    for oid, op in ops.items():
+        if op["kind"] != "unary":
+            continue
+        evs = by.get(oid, [])
+        fs, s, m = next((fs, s, m) for fs, s, m in grammar.all_methods(spec) if s["name"] == op["service"] and m["name"] == op["method"])
+        want = f"/{fs['package']}.{s['name']}/{m['name']}"
+        _bump(probes, "own_rpc_with_mixin_name")
+        for a in [e for e in evs if e["k"] == "attempt"]:
+            if a["path"] != want:
+                return [{"rule": "own_rpc_shadowed", "op": oid, "method": op["method"], "msg": f"the API's own {op['method']} went to {a['path']}; "
+                         f"the proto declares {want} (a mixin with the same short name must not shadow it unless the YAML rules that mixin)"}], probes
+        oc = next((e for e in evs if e["k"] in ("return", "raise")), None)
+        if oc is not None and oc["k"] == "raise":
+            return [{"rule": "own_rpc_shadowed", "op": oid, "method": op["method"], "msg": f"the API's own {op['method']} raised {oc.get('cls')}: {oc.get('msg')}"}], probes
     # ---- calls
     for oid, op in ops.items():
         if op["kind"] != "mixin":
